@@ -145,6 +145,14 @@ func derivedDocsScaled(base []doc, large bool, scale int) []doc {
 		if len(d.Data) > 40 {
 			out = append(out, doc{d.Name + "+trunc", d.Fmt, d.Data[:len(d.Data)*2/3]})
 		}
+		// a byte order mark in front (the first read may hold less than all of it)
+		if (d.Fmt == "srt" || d.Fmt == "vtt" || d.Fmt == "ssa") && !bytes.HasPrefix(d.Data, []byte{0xEF, 0xBB, 0xBF}) {
+			out = append(out, doc{d.Name + "+bom", d.Fmt, append([]byte{0xEF, 0xBB, 0xBF}, d.Data...)})
+		}
+		// something after the end of the root element (tools sign their exports with a comment)
+		if d.Fmt == "ttml" {
+			out = append(out, doc{d.Name + "+trailer", d.Fmt, append(append([]byte{}, d.Data...), []byte("\n<!-- exported by subtitle-tool 1.2 -->\n")...)})
+		}
 	}
 	out = append(out, stlChains()...)
 	if large {
